@@ -1,7 +1,7 @@
 //@ assume: the readable MMR is abstract: unpruned_size; get_from_file(pos) = the hash stored in the hash file at pos, whatever the leaf set says (sp_file_hash); get_peak_from_file(pos) (sp_peak_hash); get_hash(pos) = the leaf-set-aware read (sp_hash: None for a removed leaf) is offered as a DIFFERENT uninterpreted function; pmmr::peaks(size) returns the peak positions left to right (decided in C07/pmmr_arith as far as positions go; here an uninterpreted list); node hashing is the uninterpreted function of C07/pmmr_root
 //@ assume: T5: `peaks(size).into_iter().filter(f).filter_map(g)` (+ `.rev()` / `.collect()`) => abstract PosVec / PosIter / HashIter stand-ins whose contracts say exactly: filter keeps the elements with f in order, filter_map the `Some` results of g in order, rev reverses; ALL FOUR closures are the REAL closure texts, verified as lifted functions (T7; a `|&x|` pattern parameter becomes `let x = *xr;`). T6: `for peak in rhs.rev() {` => loop over the collected reversed list; `res.reverse()` => vec_reverse
 //@ assume: decided here (C07 Merkle paths, C08 'removing spent leaves never changes the hashes needed for Merkle proofs'): ReadablePMMR::bag_the_rhs(peak) is the right-to-left bagging H(p_a, H(p_b, ..)) indexed by the MMR size of the hashes of the peaks to the RIGHT of `peak`, each read with get_from_file -- the read that ignores the leaf set, so a spent single-leaf peak still contributes -- and None iff there are none; ReadablePMMR::peak_path(peak) is that bag (if any) followed by the peaks to the LEFT read with get_peak_from_file, in right-to-left order
-//@ assumed_items: 15
+//@ assumed_items: 17
 //@ fns: ReadablePMMR::bag_the_rhs, ReadablePMMR::peak_path, 4 closures
 #[derive(Clone, Copy, PartialEq, Eq)]
 pub struct Hash { pub h: u64 }
@@ -36,6 +36,11 @@ pub open spec fn hashes_of(m: Mmr, ps: Seq<u64>) -> Seq<Hash> decreases ps.len()
 pub open spec fn peak_hashes_of(m: Mmr, ps: Seq<u64>) -> Seq<Hash> decreases ps.len() {
     if ps.len() == 0 { Seq::empty() } else { let r = peak_hashes_of(m, ps.drop_last()); match m.sp_peak_hash(ps.last()) { Some(h) => r.push(h), None => r } } }
 impl PosVec { #[verifier::external_body] pub fn into_iter(self) -> (r: PosIter) ensures r.items@ == self.v@ { unimplemented!() } }
+impl PosIter { #[verifier::external_body] pub fn rev(self) -> (r: PosIter) ensures r.items@ == self.items@.reverse() { unimplemented!() } }
+/// offered so that a rewritten peak_path that shuffles its result in place is DECIDED (refuted or proved) rather than left undecided
+pub assume_specification<T> [<[T]>::swap] (s: &mut [T], a: usize, b: usize)
+    requires a < old(s)@.len(), b < old(s)@.len(),
+    ensures final(s)@ == old(s)@.update(a as int, old(s)@[b as int]).update(b as int, old(s)@[a as int]);
 pub trait Filt<E> { spec fn filtered(self, f: E) -> Seq<u64>; fn filter(self, f: E) -> (r: PosIter) ensures r.items@ == self.filtered(f); }
 impl Filt<GtEnv> for PosIter {
     open spec fn filtered(self, f: GtEnv) -> Seq<u64> { self.items@.filter(|x: u64| x > f.peak_pos0) }
